@@ -269,6 +269,7 @@ def main(tier):
             for _ in range(40 if quick else 2000):
                 inputs.append(("random", bytes(r.getrandbits(8) for _ in range(r.randrange(0, I.maxlen + 5)))))
             hooks_reached = set()
+            pair_pool, pair_seen = [], set()
             states = {"both": not quick}
             for kind, bs in inputs:
                 isa.reset(d)
@@ -290,11 +291,48 @@ def main(tier):
                               case={"isa": label, "bytes": bs.hex()}, real=type(exn).__name__)
                 elif res == "ok":
                     hooks_reached.add(hook_name(i))
-                    check_instruction(ck, I, label, bs, i, fmts, exec_cases, states)
+                    okk = check_instruction(ck, I, label, bs, i, fmts, exec_cases, states)
+                    if okk and kind in ("directed", "exhaustive", "structured") and id(i.spec) not in pair_seen:
+                        pair_seen.add(id(i.spec))
+                        pair_pool.append((bs, i))
                     if len(ck.cov["samples"]) < 5 and r.random() < 0.002:
                         ck.sample({"isa": label, "bytes": bs.hex(), "mnemonic": i.mnemonic, "hook": hook_name(i)})
             ck.count("hooks-reached", len(hooks_reached))
             ck.count("specs", len(specs))
+            # -- ordered pairs on one map: an instruction may leave something pending (a skip condition, a
+            #    delay slot, a prefix-like mode) that only the NEXT instruction trips over
+            if pair_pool:
+                npairs = len(pair_pool) ** 2 if (not quick and len(pair_pool) <= 160) else (1200 if quick else 20000)
+                allp = ((a, b) for a in pair_pool for b in pair_pool) if npairs == len(pair_pool) ** 2 else \
+                       ((r.choice(pair_pool), r.choice(pair_pool)) for _ in range(npairs))
+                for n_, ((bsa, ia), (bsb, ib)) in enumerate(allp):
+                    st = state_map(I, ("zeros", "small")[n_ % 2])
+                    old = signal.signal(signal.SIGALRM, _alarm)
+                    signal.alarm(8)
+                    try:
+                        try:
+                            ia(st)
+                        except SlowStep:
+                            raise
+                        except BaseException:
+                            continue          # the first one alone is the single-instruction phase's business
+                        try:
+                            ib(st)
+                            ck.count("exec.pairs")
+                        except (SlowStep, MemoryError):
+                            raise
+                        except BaseException as ex:
+                            ck.report("C17:exec:%s:%s" % (type(ex).__name__, site(ex)),
+                                      "%s: applying %s (%s) right after %s (%s) on the same map (registers %s) raises %s: %s" % (
+                                          label, ib.mnemonic, bsb.hex(), ia.mnemonic, bsa.hex(), ("zeros", "small")[n_ % 2], type(ex).__name__, str(ex)[:80]),
+                                      "oracle", "contract of semantics function i_%s (premise of Amoco.Frame.Props.exec_total)" % ib.mnemonic,
+                                      case={"isa": label, "bytes": bsb.hex(), "after": bsa.hex(), "state": ("zeros", "small")[n_ % 2]})
+                    except (SlowStep, MemoryError):
+                        ck.count("exec.pairs.slow")
+                    finally:
+                        signal.alarm(0)
+                        signal.signal(signal.SIGALRM, old)
+                    ck.case((label, "pair", bsa, bsb), nontrivial=True)
     # model `exec` vs icore.__call__ lookups: (has uarch, has entry) -> done/logged  (nothing raised in these cases)
     drv = Driver()
     drv.close()
